@@ -123,7 +123,7 @@ Proof.
   - destruct (step =? 2) eqn:Es; cbn [negb]; [|discriminate]. apply N.eqb_eq in Es.
     destruct sh; cbn; [discriminate|]. destruct so; cbn [negb]; [|discriminate].
     destruct wf; cbn [negb]; [|discriminate].
-    destruct (store_get stor n) eqn:Eg; [|discriminate]. destruct s; cbn; [|discriminate].
+    destruct (store_get stor n) as [[|kp]|] eqn:Eg; try discriminate. destruct s; cbn; [|discriminate].
     intros _. exists n. repeat split; auto. congruence.
 Qed.
 
@@ -348,7 +348,7 @@ Proof.
   - destruct (negb (step =? 0)); [discriminate|]. destruct l; discriminate.
   - destruct (negb (step =? 2)); [discriminate|]. destruct sh; cbn; [discriminate|].
     destruct so; cbn; [|discriminate]. destruct wf; cbn; [|discriminate].
-    destruct (store_get stor n); [|discriminate]. destruct s; discriminate.
+    destruct (store_get stor n) as [[|kp]|]; try discriminate. destruct s; discriminate.
 Qed.
 
 Lemma step_no_panic w o : snd (step fixed w o) <> RPanic.
@@ -385,7 +385,7 @@ Qed.
 Lemma eqb_bytes_refl' a : eqb_bytes a a = true.
 Proof. unfold eqb_bytes. rewrite Nat.eqb_refl. cbn. induction a as [|x a IH]; [reflexivity|]. cbn. rewrite N.eqb_refl. exact IH. Qed.
 
-Lemma pv_recovers step keyed stor n pk : store_get stor n = Some pk ->
+Lemma pv_recovers step keyed stor n pk : store_get stor n = Some (N.pos pk) ->
   let s1 := fst (fst (fst (pv_handle fixed step keyed stor (PVStart true)))) in
   let '(s2, k2, _, _) := if step =? 0 then pv_handle fixed step keyed stor (PVStart true)
                          else pv_handle fixed s1 keyed stor (PVStart true) in
@@ -668,7 +668,8 @@ Proof. unfold store_put. cbn [store_get]. rewrite eqb_bytes_refl'. reflexivity. 
 
 Ltac symstep := cbn [run step]; unfold upd_conn; cbn [conns]; rewrite ?get_set_conn_same; cbn.
 
-Lemma honest_run w c n pk :
+Lemma honest_run w c n p :
+  let pk := N.pos p in
   let ops := [OConnect c;
               OReq c TPlain (EPairSetup PSStart); OReq c TPlain (EPairSetup (PSVerify AValid PRight));
               OReq c TPlain (EPairSetup (PSKeyExch KSession (IGenuine n pk) false));
